@@ -33,14 +33,15 @@ Definition penv (P : paths) (ss : tbl) (x : nat) (t : Z) : Qc :=
 
 Definition perturbed (P : paths) (x : nat) : bool := match nth x P [] with [] => false | _ => true end.
 
-(** SimpleBlock._impulse_nonlinear inside CombinedBlock._impulse_nonlinear: a block none of whose inputs is perturbed is skipped *)
-Definition eval_block (T : Z) (ss ssi : tbl) (P : paths) (b : sblock) : paths :=
-  if existsb (perturbed P) (sb_ins b)
+(** SimpleBlock._impulse_nonlinear inside CombinedBlock._impulse_nonlinear: a block none of whose inputs is perturbed is skipped,
+    unless an initial steady state was supplied ([force]: "if input_args or ss_initial is not None") *)
+Definition eval_block (force : bool) (T : Z) (ss ssi : tbl) (P : paths) (b : sblock) : paths :=
+  if force || existsb (perturbed P) (sb_ins b)
   then fold_left (fun P' oe =>
          upd_nth (fst oe) (map (fun t => qeval_td (Some T) (qlookup ss) (qlookup ssi) (penv P ss) (snd oe) (Z.of_nat t))
                                (seq 0 (Z.to_nat T))) P') (sb_outs b) P
   else P.
-Definition nl_eval (T : Z) (ss ssi : tbl) (prog : list sblock) (P0 : paths) : paths := fold_left (eval_block T ss ssi) prog P0.
+Definition nl_eval (force : bool) (T : Z) (ss ssi : tbl) (prog : list sblock) (P0 : paths) : paths := fold_left (eval_block force T ss ssi) prog P0.
 
 (** inputs | U as level paths: [devs] lists (name, deviation path) *)
 Definition init_paths (N : nat) (ss : tbl) (devs : list (nat * list Qc)) : paths :=
@@ -75,9 +76,9 @@ Definition nl_update (T : Z) (ss : tbl) (HU : dmat) (Tg : list nat) (Up : list (
                         (seq 0 (length Up)))
   end.
 
-Definition nl_results (N : nat) (T : Z) (ss ssi : tbl) (prog : list sblock) (U : list nat) (shocks : list (nat * list Qc))
+Definition nl_results (force : bool) (N : nat) (T : Z) (ss ssi : tbl) (prog : list sblock) (U : list nat) (shocks : list (nat * list Qc))
   (Up : list (list Qc)) : paths :=
-  nl_eval T ss ssi prog (init_paths N ss (shocks ++ combine U Up)).
+  nl_eval force T ss ssi prog (init_paths N ss (shocks ++ combine U Up)).
 
 Inductive nl_outcome := Converged (Up : list (list Qc)) (res : paths) | NoConvergence | Singular.
 
@@ -90,10 +91,10 @@ Fixpoint nl_loop (fuel : nat) (F : list (list Qc) -> paths) (ok : paths -> bool)
            else match upd Up r with None => Singular | Some Up' => nl_loop k F ok upd Up' end
   end.
 
-Definition nl_solve (maxit : nat) (N : nat) (T : Z) (ss ssi : tbl) (prog : list sblock) (U Tg : list nat)
+Definition nl_solve (force : bool) (maxit : nat) (N : nat) (T : Z) (ss ssi : tbl) (prog : list sblock) (U Tg : list nat)
   (shocks : list (nat * list Qc)) (tol : Qc) : nl_outcome :=
   let HU := nl_HU T N ss prog U Tg in
-  nl_loop maxit (nl_results N T ss ssi prog U shocks) (nl_ok ss Tg tol) (nl_update T ss HU Tg)
+  nl_loop maxit (nl_results force N T ss ssi prog U shocks) (nl_ok ss Tg tol) (nl_update T ss HU Tg)
           (map (fun _ => repeat g0 (Z.to_nat T)) U).
 
 (** ---- steady state of the DAG: CombinedBlock._steady_state evaluates the blocks one after another, each block's outputs from the
@@ -139,18 +140,18 @@ Fixpoint wf_progb (N : nat) (prog : list sblock) : bool :=
 (** ---- interface for the correspondence check: one iteration replayed from an iterate of the implementation ---- *)
 Definition qo (x : Qc) : Z * Z := (Qnum (this x), Zpos (Qden (this x))).
 (** deviations of the requested names, the stopping decision, and the next iterate *)
-Definition run_nl_step (N : nat) (T : Z) (ss ssi : tbl) (prog : list sblock) (U Tg : list nat) (shocks : list (nat * list Qc))
+Definition run_nl_step (force : bool) (N : nat) (T : Z) (ss ssi : tbl) (prog : list sblock) (U Tg : list nat) (shocks : list (nat * list Qc))
   (tol : Qc) (Up : list (list Qc)) (outs : list nat) :=
-  let res := nl_results N T ss ssi prog U shocks Up in
+  let res := nl_results force N T ss ssi prog U shocks Up in
   (map (fun o => map qo (dev_of ss res o)) outs, nl_ok ss Tg tol res,
    option_map (map (map qo)) (nl_update T ss (nl_HU T N ss prog U Tg) Tg Up res)).
 (** steady state of a DAG from a calibration table, and the nonlinear impulse (deviations of the requested names) *)
 Definition run_dag (N : nat) (T : Z) (calib : tbl) (prog : list sblock) (devs : list (nat * list Qc)) (outs : list nat) :=
   let ss := ss_eval prog calib in
-  (wf_progb N prog && Nat.eqb (length calib) N, map qo ss, map (fun o => map qo (dev_of ss (nl_eval T ss ss prog (init_paths N ss devs)) o)) outs).
-Definition run_nl_solve (maxit N : nat) (T : Z) (ss ssi : tbl) (prog : list sblock) (U Tg : list nat) (shocks : list (nat * list Qc))
+  (wf_progb N prog && Nat.eqb (length calib) N, map qo ss, map (fun o => map qo (dev_of ss (nl_eval false T ss ss prog (init_paths N ss devs)) o)) outs).
+Definition run_nl_solve (force : bool) (maxit N : nat) (T : Z) (ss ssi : tbl) (prog : list sblock) (U Tg : list nat) (shocks : list (nat * list Qc))
   (tol : Qc) (outs : list nat) :=
-  match nl_solve maxit N T ss ssi prog U Tg shocks tol with
+  match nl_solve force maxit N T ss ssi prog U Tg shocks tol with
   | Converged Up res => (0%Z, map (map qo) Up, map (fun o => map qo (dev_of ss res o)) outs)
   | NoConvergence => (1%Z, [], [])
   | Singular => (2%Z, [], [])
